@@ -280,6 +280,17 @@ def check_bytes(case):
         f.expect(acc, f"sig_verify/rejects-valid/{label}", repr(got)[:160])
     else:
         f.expect(not acc, f"sig_verify/accepts-invalid/{label}", repr(got)[:160])
+    if want or case["k"] % 2:
+        # the same three byte strings in the OTHER message mode right afterwards: the digest is another one (HASH256(msg)
+        # vs HASH256(msg || hash type)), so the verdict is decided afresh - an earlier answer for these bytes says nothing
+        z3 = _digest(msg, flagbyte & 0xFF, not preimage)
+        want3 = pt is not None and vals is not None and ec.ecdsa_verify(pt, z3, vals[0], vals[1])
+        got3 = attempt(bits.sig_verify, sig, pkb, msg, msg_preimage=not preimage)
+        cls.append("nt:then-same-bytes-in-other-mode" + ("/after-OK" if want else ""))
+        if want3:
+            f.expect(got3 == "OK", f"sig_verify/rejects-valid/other-mode-afterwards/{label}", repr(got3)[:160])
+        else:
+            f.expect(got3 != "OK", f"sig_verify/accepts-invalid/other-mode-afterwards/{label}", repr(got3)[:160])
     return cls, f
 
 
@@ -397,7 +408,8 @@ def bytes_cases(draw):
         m["pos"] = 0
     return {
         "d": draw(gen.scalars_valid()),
-        "k": draw(st.integers(1, N - 1)),
+        # incl. the nonce whose r = 301ef262...: INTEGER content that starts like a DER SEQUENCE header of its own length
+        "k": draw(st.sampled_from([0x5EED2B219]) | st.integers(1, N - 1) if draw(st.integers(0, 11)) == 0 else st.integers(1, N - 1)),
         # the tuple ranges over every sighash byte, not only the six standard ones (0x00 is falsy in Python)
         "flag": draw(st.sampled_from(FLAGS + [0x00, 0x00, 0x04, 0x80, 0xFF]) | st.integers(0, 255)),
         "preimage": draw(st.booleans()),
@@ -448,7 +460,7 @@ def targets(tier):
                required=["mut:s->n-s", "mut:z+n", "mut:u1G+u2P=infinity", "mut:other-key", "mut:aliased-key", "nt:expect-accept", "nt:expect-reject", "mut:flip-px"]),
         Target("sigverify-bytes", check_bytes, strategy=lambda tier: bytes_cases(), budget={"quick": 800, "thorough": 10000},
                required=["mut:der-struct", "mut:der-value", "mut:pk-hybrid", "mut:pk-prefix", "mut:pk-len-otherform", "mut:flag", "mut:msg", "mut:u1G+u2P=infinity", "mut:forged-under-x0-key", "nt:expect-accept", "nt:expect-reject", "nt:nonstandard-sighash-byte-00",
-                         "nt:key-bytes-with-whitespace-or-nul-at-an-end", "mut:pk-len-ext-ws", "nt:der-length-64", "nt:der-length-63", "nt:plain-msg-ends-in-its-hash-type"]),
+                         "nt:key-bytes-with-whitespace-or-nul-at-an-end", "mut:pk-len-ext-ws", "nt:der-length-64", "nt:der-length-63", "nt:plain-msg-ends-in-its-hash-type", "nt:then-same-bytes-in-other-mode/after-OK"]),
         Target("low-s", check_lows, strategy=lambda tier: lows_cases(), budget={"quick": 3000, "thorough": 40000},
                required=["nt:complement-short", "nt:complement-short-topbit", "nt:s-at-half", "nt:verified"]),
         Target("small-curve", check_small, enumerate_=enum_small, exhaustive=True),
